@@ -916,9 +916,13 @@ pub fn cutpoints(
         );
         let num_threads = rayon::current_num_threads();
         let target_weight = num_arcs.div_ceil(num_threads as u64);
-        let cutpoints: Vec<usize> = std::iter::once(0)
+        let mut cutpoints: Vec<usize> = std::iter::once(0)
             .chain(FairChunks::new(target_weight, &dcf).map(|r| r.end))
             .collect();
+        // A graph without arcs yields no chunks: use a single part
+        if cutpoints.len() == 1 {
+            cutpoints.push(num_nodes);
+        }
         log::info!(
             "Using DCF-based splitting into {} parts",
             cutpoints.len() - 1
